@@ -501,6 +501,7 @@ func formatGen(tier string, r *rng, emit func(string)) {
 	for i := 0; i < n; i++ {
 		src(mutate(r, genProgram(r, 1+r.intn(3))))
 	}
+	formatGapFamilies(tier, r, emit) // formatfam2.go
 }
 
 // escapes whose value is 0 or >= 0x80, raw invalid UTF-8, unknown and octal-looking escapes: also used by the
